@@ -93,7 +93,7 @@ func parseContract(c *core.Ctx, src string, mustFail string) {
 	}
 }
 
-var spanNames = map[string]string{"b": "an unterminated block", "s": "an unterminated string", "o": "an unterminated object literal",
+var spanNames = map[string]string{"p": "", "b": "an unterminated block", "s": "an unterminated string", "o": "an unterminated object literal",
 	"c": "an unterminated comment", "a": "an unterminated directive argument list"}
 
 // corpusTemplate is a generated valid template with the spans of its constructs
@@ -106,11 +106,43 @@ func corpusTemplate(c *core.Ctx) (string, []model.Span) {
 
 func insideSpan(spans []model.Span, o int) string {
 	for _, sp := range spans {
-		if sp.Open <= o && o < sp.Close {
+		if sp.Open <= o && o < sp.Close && spanNames[sp.Kind] != "" {
 			return spanNames[sp.Kind]
 		}
 	}
 	return ""
+}
+
+// inCode reports whether offset o lies in code (a print block, a directive
+// argument list or an object literal) and outside strings and comments
+func inCode(spans []model.Span, o int) bool {
+	code := false
+	for _, sp := range spans {
+		if sp.Open <= o && o < sp.Close {
+			switch sp.Kind {
+			case "s", "c":
+				return false
+			case "p", "a", "o":
+				code = true
+			}
+		}
+	}
+	return code
+}
+
+var illegalChars = []string{"#", "~", "$", "&", "|", "^", "`", "\\", "\x7f"}
+
+// templates with an illegal character in code, and operands directly followed by "("
+var illegalTable = []string{
+	"@reserve(#)", "@use(#)", "@insert(#)x@end", "@insert(#, 1)", "@component(#)", "@each(# in [1, 2])x@end", "@each(v in #)x@end", "{{ {#: 1} }}", "{{ {a: #} }}",
+	"@component('c')@slot($)x@end@end", "@slot(#)", "{{ # }}", "{{ 1 # 2 }}", "@if(#)x@end", "@if(true)x@elseif(#)y@end", "@dump(#)", "@dump(1, #)", "@breakIf(#)", "@continueIf(~)",
+	"@for(#;;)x@break@end", "@for(i = 0; #; i++)x@break@end", "@for(i = 0; i < 1; #)x@end", "{{ x.# }}", "{{ x[#] }}", "{{ [#] }}", "{{ [1, #] }}", "{{ x ? # : 1 }}", "{{ x ? 1 : # }}",
+	"{{ x = # }}", "{{ # = 1 }}", "{{ x.f(#) }}", "{{ -# }}", "{{ !# }}", "{{ (#) }}", "@component(\"c\", {a: #})", "@component(\"c\", #)", "{{ a & b }}", "{{ a | b }}", "{{ a ^ b }}", "{{ `x` }}",
+}
+
+var mustReturnTable = []string{
+	"{{ len(items) }}", "@if(isset(user))yes@end", "{{ a.b(1)(2) }}", "{{ items[0](1) }}", "{{ (a)(b) }}", "{{ n (", "@dump(a, b(c))", "{{ 1(2) }}", "{{ \"s\"(1) }}", "{{ f() }}", "{{ x.f()() }}",
+	"@each(v in f(x))a@end", "{{ [1](0) }}", "{{ {a: 1}(1) }}", "{{ nil(1) }}", "{{ true(false) }}", "@if(a(b)(c))x@end", "{{ x++(1) }}", "{{ -x(1) }}",
 }
 
 // explicit truncations of every named kind
@@ -119,7 +151,7 @@ var truncations = []struct{ src, kind string }{
 	{"@each(v in [1])x", "b"}, {"@each(v in [1]){{ v }}", "b"}, {"@each(v in [])x@else y", "b"},
 	{"@for(i = 0; i < 2; i++)x", "b"}, {"@for(;;)x", "b"}, {"@insert(\"a\")x", "b"}, {"@insert(\"a\")", "b"},
 	{"@component(\"c\")@slot(\"s\")x", "b"}, {"@component(\"c\")@slot x", "b"}, {"@component(\"c\")@slot(\"s\")x@end", "b"},
-	{"@component(\"c\", {a: 1})@slot y@end", "b"},
+	{"@component(\"c\", {a: 1})@slot y@end", "b"}, {"@component(\"c\") @slot(\"s\")x@end ", "b"}, {"@component(\"c\")\n  @slot(\"top\")x@end\n<p>after</p>", "b"}, {"@component(\"c\")\t@slot x@end", "b"},
 	{"{{ {a: 1", "o"}, {"{{ {a: 1,", "o"}, {"{{ {", "o"}, {"{{ {a:", "o"}, {"{{ x = {a: {b: 2}", "o"}, {"@component(\"c\", {a: 1", "o"}, {"{{ {a: 1, b", "o"}, {"@if({a: 1", "o"},
 	{"{{ \"abc", "s"}, {"{{ 'a", "s"}, {"@if(\"x", "s"}, {"{{ \"a\\\"", "s"}, {"{{ \"a\nb", "s"}, {"{{ \"", "s"}, {"@use(\"l", "s"}, {"{{ 1 + 'x", "s"},
 	{"{{-- abc", "c"}, {"{{--", "c"}, {"a{{-- --}", "c"}, {"{{-- -- }}", "c"}, {"{{ 1 }}{{-- x", "c"}, {"{{---", "c"},
@@ -171,6 +203,45 @@ func init() {
 					src := pre + t.src
 					c.Sample(map[string]any{"source": src, "must_fail_because": spanNames[t.kind]})
 					parseContract(c, src, spanNames[t.kind])
+				}})
+			// an illegal character in code must be rejected, wherever it stands
+			secs = append(secs, core.Section{Name: "illegal-character-table", Exhaustive: true, N: len(illegalTable) * len(truncationPrefixes),
+				Run: func(c *core.Ctx, i int) {
+					src := truncationPrefixes[i/len(illegalTable)]
+					if strings.HasSuffix(src, ")") || strings.Contains(src, "@if(true)in") || strings.Contains(src, "@each(q") {
+						src = "" // prefixes that open a block would need their @end
+					}
+					src += illegalTable[i%len(illegalTable)]
+					c.Sample(map[string]any{"source": src, "must_fail_because": "an illegal character in code"})
+					parseContract(c, src, "code with an illegal character")
+				}})
+			secs = append(secs, core.Section{Name: "call-syntax-table", Exhaustive: true, N: len(mustReturnTable),
+				Run: func(c *core.Ctx, i int) { parseContract(c, mustReturnTable[i], "") }})
+			// illegal characters injected into the code of generated templates
+			secs = append(secs, core.Section{Name: "illegal-character-injection", N: nCorpus,
+				Run: func(c *core.Ctx, i int) {
+					src, spans := corpusTemplate(c)
+					var spots []int
+					for o := 1; o < len(src); o++ {
+						if src[o] == ' ' && inCode(spans, o) && inCode(spans, o-1) {
+							spots = append(spots, o)
+						}
+					}
+					for k := 0; k < 12 && len(spots) > 0; k++ {
+						o := spots[c.Rng.Intn(len(spots))]
+						ch := illegalChars[c.Rng.Intn(len(illegalChars))]
+						// inserted between two tokens
+						parseContract(c, src[:o]+" "+ch+src[o:], "code with an illegal character")
+						// in the place of the token that follows
+						e := o + 1
+						for e < len(src) && src[e] != ' ' && inCode(spans, e) {
+							e++
+						}
+						if e > o+1 {
+							parseContract(c, src[:o+1]+ch+src[e:], "code with an illegal character")
+						}
+						c.Count("illegal_characters_injected", 2)
+					}
 				}})
 			// every prefix of generated valid templates
 			secs = append(secs, core.Section{Name: "prefixes", N: nCorpus,
